@@ -697,9 +697,14 @@ func HashMapOfValueCopy(vm *Thread, target *HashMapOfValue, source *HashMapOfVal
 		if i == -1 {
 			panic("no room in target hashmap during copy")
 		}
+		if old := target.Table[i]; old.Key().IsUndefined() {
+			// count only keys that were not present yet; a reused deleted slot is already occupied
+			target.Elements++
+			if old.Value().IsUndefined() {
+				target.OccupiedSlots++
+			}
+		}
 		target.Table[i] = entry
-		target.OccupiedSlots++
-		target.Elements++
 	}
 
 	return value.Undefined
@@ -720,9 +725,14 @@ func HashMapOfValueCopyInterface(vm *Thread, target *HashMapOfValue, source Hash
 		if i == -1 {
 			panic("no room in target hashmap during copy")
 		}
+		if old := target.Table[i]; old.Key().IsUndefined() {
+			// count only keys that were not present yet; a reused deleted slot is already occupied
+			target.Elements++
+			if old.Value().IsUndefined() {
+				target.OccupiedSlots++
+			}
+		}
 		target.Table[i] = entry
-		target.OccupiedSlots++
-		target.Elements++
 	}
 
 	return value.Undefined
